@@ -25,7 +25,10 @@ RULE = ("Generated scenarios (Hypothesis; exhaustive product for n<=2 files in t
         "untouched}, an initial state {existing, absent: the outside change then CREATES it} and an outside "
         "change {before its first buffered access, after it, never}; access "
         "order, position of the 'after' change and exit order are generated; an enumerated sub-family "
-        "uses a file name that is a SYMBOLIC LINK whose target the outside writer changes; a file may have a SECOND "
+        "uses a file name that is a SYMBOLIC LINK whose target the outside writer changes; a quarter of the "
+        "modifications start with a destructive root operation (clear() / reset([])) that re-binds "
+        "the container - before the outside change, or AFTER it on a file that is already buffered (the exit "
+        "must then refuse); a file may have a SECOND "
         "object bound to it that only reads (so two collections are registered for one buffer entry); a "
         "file that was only read before a forced flush may be modified after it. The outside writer always "
         "changes (size, mtime_ns). Oracle: conflict set = modified AND changed-after; a per-object "
@@ -60,15 +63,23 @@ def _outside_doc(kind, i, tag):
     return {"outside": [tag, i, "xxxxxxxxxxxxxxxx"]} if kind == "dict" else ["outside", tag, i, "xxxxxxxxxxxxxxxx"]
 
 
-def _mutate(obj, kind, i):
+def _mutate(obj, kind, i, rebind=False):
+    if rebind:
+        # a destructive root operation first: clear() / a shorter reset() re-bind the container
+        if kind == "dict":
+            obj.clear()
+        else:
+            obj.reset([])
     if kind == "dict":
         obj["new"] = {"v": i}
     else:
         obj.append({"v": i})
 
 
-def _mutated(doc, kind, i):
+def _mutated(doc, kind, i, rebind=False):
     d = copy.deepcopy(doc)
+    if rebind:
+        d = {} if kind == "dict" else []
     if kind == "dict":
         d["new"] = {"v": i}
     else:
@@ -145,8 +156,8 @@ def run_case(case):
                     got = _read(objs[i], kind)
                     if got != model[i]:
                         raise Mismatch("buffered_read", file=i, got=got, expected=model[i])
-                _mutate(objs[i], kind, i)
-                model[i] = _mutated(model[i], kind, i)
+                _mutate(objs[i], kind, i, rebind=bool(f.get("rebind")))
+                model[i] = _mutated(model[i], kind, i, rebind=bool(f.get("rebind")))
             elif f["role"] == "readonly":
                 got = _read(objs[i], kind)
                 if got != model[i]:
@@ -164,6 +175,17 @@ def run_case(case):
         for i in pending_after:
             disk[i] = _outside_doc(kind, i, "after")
             res[i].write(copy.deepcopy(disk[i]))
+        if not forced:
+            for i in range(n):
+                f = files[i]
+                if not f.get("rebind_late") or f["role"] not in ("modified", "readonly"):
+                    continue
+                # AFTER the outside change a destructive root operation (re-binding the container)
+                # and a write: the buffered copy predates the outside change, so the exit must refuse
+                _mutate(objs[i], kind, 3000 + i, rebind=True)
+                model[i] = _mutated(model[i], kind, 3000 + i, rebind=True)
+                files = [dict(x) for x in files]
+                files[i]["role"] = "modified"
         for i, f in enumerate(files):
             if f["change"] == "after" and f["role"] == "untouched":
                 # never entered the buffer: an outside change is just the file's content
@@ -447,6 +469,8 @@ def _draw_case(draw, cname):
             "absent": draw(st.integers(0, 3)) == 0,
             "twin": draw(st.integers(0, 3)) == 0,
             "modify_after_force": draw(st.integers(0, 2)) == 0,
+            "rebind": draw(st.integers(0, 3)) == 0,
+            "rebind_late": draw(st.integers(0, 3)) == 0,
         })
     return {"property": ID, "engine": "c07", "class": cname, "ctx": draw(st.sampled_from(CTX)),
             "files": files, "trigger": draw(st.integers(0, 3)), "cap": draw(st.sampled_from([10**9, 10**6])),
